@@ -902,6 +902,8 @@ def gen_C16(rng, scale):
         lp = float(ts) / (1 / (2 * math.pi * float(fc)) + float(ts))
         hp = 1 / (2 * math.pi * float(fc) * float(ts) + 1)
         exp = A("a_lpf_gen", [lp]) + A("a_hpf_gen", [hp]) + A("A_LPF_GEN", [lp]) + A("A_HPF_GEN", [hp]) + E("A_LPF_2", [0]) + E("A_HPF_2", [0, 0])
+        # the same macros called with compound argument expressions (C16-16: a parameter used without parentheses)
+        exp += A("A_LPF_GEN(f1 + f2, t1 - t0)", [lp]) + A("A_HPF_GEN(f1 + f2, t1 - t0)", [hp]) + A("A_LPF_2(f1 + f2, t1 - t0)", [lp]) + A("A_HPF_2(f1 + f2, t1 - t0)", [hp]) + E("A_LPF_1(a/2 + a/2)", [0]) + E("A_HPF_1(a/2 + a/2)", [0])
         cases.append(Case("gen %s %s" % (hexf(fc), hexf(ts)), "a_lpf_gen", exp, {"fc": dec(fc), "ts": dec(ts)}))
     cases += prec_C16(rng, 80 * scale)
     return cases, ("C16: precision cases: a_tf_iter, a_lpf_iter, a_hpf_iter on full-mantissa coefficients and inputs.  a_tf_init/set_num/set_den/iter/zero with orders 0..6 x 0..5 (delay lines re-poisoned before the setters), "
